@@ -299,6 +299,10 @@ pub fn render(lang: Lang, items: &[Item]) -> String {
       _ => unreachable!(),
     }
   }
+  if !items.iter().any(|i| !i.is_head() && !matches!(i, Item::SourceMapUrl { .. })) {
+    // always at least one statement: comment-only programs are C08's domain
+    out.push_str("export {};\n");
+  }
   out.push_str(&tail);
   out
 }
@@ -652,10 +656,10 @@ fn build_item(p: &GenParams, referrer: &str, lang: Lang, r: &RawItem) -> Item {
     12 if ts => Item::DeclareModule { spec },
     13 => Item::RefPath { spec },
     14 => Item::RefTypes { spec },
-    15 if !ts => Item::SelfTypes { spec },
+    15 => Item::SelfTypes { spec },
     16 if lang.is_jsx() => Item::JsxImportSource { spec },
     17 if lang.is_jsx() => Item::JsxImportSourceTypes { spec },
-    18 if !ts => Item::JsDocImport { spec },
+    18 => Item::JsDocImport { spec },
     19 if p.source_maps => Item::SourceMapUrl { spec },
     20 => Item::Require { spec },
     21 => Item::DynamicOpaque,
@@ -833,6 +837,13 @@ pub fn unify_attrs(world: &mut World, extra_plain: &[String]) {
         if h == "x-typescript-types" {
           plain.insert(resolve_key(k, v));
         }
+      }
+    }
+  }
+  for k in &keys {
+    if let Some(Entry::Wasm { imports }) = world.entries.get(k) {
+      for s in imports {
+        plain.insert(resolve_key(k, s));
       }
     }
   }
